@@ -512,6 +512,22 @@ func (c *Cluster) healPhase() {
 		cause := c.livenessCause(stage)
 		if cfg.Membership {
 			cause += "+membership"
+			// Signature of known finding F4 for liveness: a running voter of the latest committed
+			// configuration still has an older configuration in force (it holds the entry but has
+			// not applied it), so it waits for votes of nodes that are no longer voters.
+			latest := uint64(0)
+			for i := r.RegMax; i >= 1 && latest == 0; i-- {
+				if reg, ok := r.Reg[i]; ok && reg.Full && reg.Type == raft.ConfigurationEntry {
+					latest = i
+				}
+			}
+			voters := c.votersNow()
+			for _, n := range c.upNodes() {
+				if voters[n.ID] && n.Inc.haveConf && n.Inc.lastConfIdx < latest {
+					cause += "+stale-config"
+					break
+				}
+			}
 		}
 		r.violate("C15", "liveness-"+stage, cause, "%d election timeouts after faults stopped: %s", budget/cfg.electionNs(), detail)
 	} else {
@@ -637,9 +653,52 @@ func (r *Recorder) checkInstanceComplete(inc *Incarnation, a *authSeq) {
 	}
 }
 
+// checkConfigSteps: C09 "growing/shrinking by one server at a time" — consecutive committed
+// configurations differ by at most one server (one addition, one removal or one change of the
+// voter flag). A second change accepted while the first is still pending is cloned from a stale
+// configuration and silently undoes it: the committed sequence then jumps by two.
+func (r *Recorder) checkConfigSteps() {
+	if !r.c.Cfg.Membership {
+		return
+	}
+	var idxs []uint64
+	for i, e := range r.Reg {
+		if e.Full && e.Type == raft.ConfigurationEntry {
+			if _, ok := r.confSeen[confKey{i, e.Term}]; ok {
+				idxs = append(idxs, i)
+			}
+		}
+	}
+	sort.Slice(idxs, func(a, b int) bool { return idxs[a] < idxs[b] })
+	for k := 1; k < len(idxs); k++ {
+		a := r.confSeen[confKey{idxs[k-1], r.Reg[idxs[k-1]].Term}]
+		b := r.confSeen[confKey{idxs[k], r.Reg[idxs[k]].Term}]
+		diff := 0
+		for id := range a.Members {
+			if _, ok := b.Members[id]; !ok {
+				diff++
+			} else if a.IsVoter[id] != b.IsVoter[id] {
+				diff++
+			}
+		}
+		for id := range b.Members {
+			if _, ok := a.Members[id]; !ok {
+				diff++
+			}
+		}
+		r.probe("committed-config-steps-checked")
+		if diff > 1 {
+			r.violate("C09", "config-step", "more-than-one-server", "committed configuration %s (index %d) is followed by %s (index %d): %d servers changed in one step",
+				confString(a), idxs[k-1], confString(b), idxs[k], diff)
+			return
+		}
+	}
+}
+
 func (c *Cluster) finalChecks() {
 	r := c.Rec
 	r.checkHistory()
+	r.checkConfigSteps()
 	a := r.buildAuth()
 	for _, n := range c.Nodes {
 		if n.Inc != nil {
